@@ -244,7 +244,16 @@ emit_ioc_cell(arg_t *arg, struct asn1p_ioc_cell_s *cell) {
     } else if(cell->value->meta_type == AMT_TYPEREF) {
         GEN_INCLUDE(asn1c_type_name(arg, cell->value, TNF_INCLUDE));
         OUT("aioc__type, &asn_DEF_%s", MKID(cell->value));
+    } else if(cell->value->meta_type == AMT_TYPE
+              && (cell->value->expr_type
+                  & (ASN_BASIC_MASK | ASN_STRING_MASK))) {
+        /* A built-in type in place: { INTEGER IDENTIFIED BY 1 } */
+        GEN_INCLUDE(asn1c_type_name(arg, cell->value, TNF_INCLUDE));
+        OUT("aioc__type, &asn_DEF_%s",
+            asn1c_type_name(arg, cell->value, TNF_SAFE));
     } else {
+        FATAL("Unsupported setting of field %s at line %d",
+              cell->field->Identifier, cell->value->_lineno);
         return -1;
     }
 
@@ -290,7 +299,9 @@ emit_ioc_table(arg_t *arg, asn1p_expr_t *context, asn1c_ioc_table_and_objset_t i
         }
         for(size_t cn = 0; cn < row->columns; cn++) {
             if(rn || cn) OUT(",\n");
-            emit_ioc_cell(arg, &row->column[cn]);
+            if(emit_ioc_cell(arg, &row->column[cn])) {
+                return -1;
+            }
         }
     }
     OUT("\n");
